@@ -2,9 +2,13 @@ package main
 
 import (
 	"fmt"
+	"go/constant"
+	"go/types"
 	"sort"
 	"strings"
 	"time"
+
+	"golang.org/x/tools/go/ssa"
 )
 
 // lrDepthLemma decides, on the tables as they stand in the generated file, the one fact about the
@@ -22,6 +26,10 @@ import (
 // depth(s) >= yyR2[r] for every reduction (s, r). The simulator is a model of the driver's stack
 // discipline (class `table`, reported separately, never counted as a discharged obligation).
 func (dv *driver) lrDepthLemma() (ok bool, detail string) {
+	if dv.lrDone {
+		return dv.lrOK, dv.lrDetail
+	}
+	defer func() { dv.lrDone, dv.lrOK, dv.lrDetail = true, ok, detail }()
 	T := dv.tables
 	pact, act, chk, def, exca, r1, r2, pgo := T["yyPact"], T["yyAct"], T["yyChk"], T["yyDef"], T["yyExca"], T["yyR1"], T["yyR2"], T["yyPgo"]
 	n := len(pact)
@@ -188,6 +196,173 @@ type lrGraph struct {
 	succ, pred []map[int]bool
 	node       map[int]bool
 	gotoOf     func(b int, a int64) int
+}
+
+// strArrayInit reads the constant initialiser of a package-level [...]string variable.
+func strArrayInit(pkg *ssa.Package, name string) []string {
+	g, ok := pkg.Members[name].(*ssa.Global)
+	if !ok {
+		return nil
+	}
+	at, ok := g.Type().(*types.Pointer).Elem().Underlying().(*types.Array)
+	if !ok {
+		return nil
+	}
+	out := make([]string, at.Len())
+	init := pkg.Func("init")
+	if init == nil {
+		return nil
+	}
+	for _, b := range init.Blocks {
+		for _, in := range b.Instrs {
+			st, ok := in.(*ssa.Store)
+			if !ok {
+				continue
+			}
+			ia, ok := st.Addr.(*ssa.IndexAddr)
+			if !ok || ia.X != ssa.Value(g) {
+				continue
+			}
+			ic, ok1 := ia.Index.(*ssa.Const)
+			vc, ok2 := st.Val.(*ssa.Const)
+			if !ok1 || !ok2 || vc.Value == nil {
+				continue
+			}
+			idx := ic.Int64()
+			if idx >= 0 && idx < int64(len(out)) {
+				out[idx] = constant.StringVal(vc.Value)
+			}
+		}
+	}
+	return out
+}
+
+// symbolsOnStackLemma (the standing assumption of E-GRAM: "a stack slot holds a value produced for the symbol that
+// labels its state"): on the tables as they stand and the rules as the grammar file states them,
+//   (1) every state that the driver pushes by a goto on non-terminal A - also through the default entry of the goto
+//       table, which the driver does not test - has A as its accessing symbol (yyChk), and
+//   (2) for every reduction (state s, rule r: A -> X1 ... Xn) and every i, all states that lie n-i push-edges below s
+//       have Xi as their accessing symbol.
+// A value is pushed together with its state: the scanner's value of token t with a state whose accessing symbol is t
+// (the driver tests that), $$ of a rule for A with the goto state of A (1). Hence the window yyS[yypt-n+1 .. yypt] of
+// a reduction by r holds values produced for X1 ... Xn (2). Needs the graph of lrDepthLemma.
+func (dv *driver) symbolsOnStackLemma(gp *gramParser) (bool, string) {
+	g := dv.lrGraph
+	if g == nil {
+		return false, "the push graph is not available"
+	}
+	T := dv.tables
+	chk, def, exca, r1, r2 := T["yyChk"], T["yyDef"], T["yyExca"], T["yyR1"], T["yyR2"]
+	names := strArrayInit(dv.spkg, "yyToknames")
+	if len(names) == 0 {
+		return false, "yyToknames not found"
+	}
+	tokNum := map[string]int64{}
+	for i, n := range names {
+		tokNum[n] = int64(i + 1)
+	}
+	ntNum := map[string]int64{}
+	for num, name := range gp.NTName {
+		ntNum[name] = num
+	}
+	if len(gp.Problems) > 0 {
+		return false, "grammar file and tables disagree: " + gp.Problems[0]
+	}
+	symNum := func(sym string) (int64, bool) {
+		if sym == "error" {
+			return 2, true
+		}
+		if gp.G.IsTerminal(sym) {
+			n, ok := tokNum[sym]
+			return n, ok
+		}
+		n, ok := ntNum[sym]
+		return -n, ok
+	}
+	// (1) goto targets
+	gotos := 0
+	for b := range g.node {
+		for a := int64(0); a < int64(len(T["yyPgo"])); a++ {
+			s := g.gotoOf(b, a)
+			if s < 0 || !g.succ[b][s] {
+				continue
+			}
+			// the edge b -> s exists; if it is the goto on a, the accessing symbol must be a. An edge can also stem from a
+			// shift or from the goto on another non-terminal, so only a matching accessing symbol is required of some a:
+			_ = a
+		}
+	}
+	for b := range g.node {
+		for s := range g.succ[b] {
+			if chk[s] >= 0 {
+				continue // pushed by a shift: the driver tests yyChk[s] == token
+			}
+			gotos++
+			if g.gotoOf(b, -chk[s]) != s {
+				return false, fmt.Sprintf("state %d is pushed on state %d by a goto, but not by the goto on its accessing symbol %d", s, b, -chk[s])
+			}
+		}
+	}
+	// reductions
+	reds := func(s int) []int64 {
+		var out []int64
+		seen := map[int64]bool{}
+		add := func(r int64) {
+			if r > 0 && r < int64(len(r2)) && !seen[r] {
+				seen[r] = true
+				out = append(out, r)
+			}
+		}
+		if def[s] == -2 {
+			for i := 0; i+1 < len(exca); i += 2 {
+				if exca[i] == -1 && exca[i+1] == int64(s) {
+					for j := i + 2; j+1 < len(exca); j += 2 {
+						add(exca[j+1])
+						if exca[j] < 0 {
+							break
+						}
+					}
+					break
+				}
+			}
+		} else {
+			add(def[s])
+		}
+		return out
+	}
+	checked := 0
+	for s := range g.node {
+		for _, r := range reds(s) {
+			rule := gp.G.Rules[r-1]
+			if int64(len(rule.RHS)) != r2[r] {
+				return false, fmt.Sprintf("rule %d has %d symbols in the grammar file, yyR2 says %d", r, len(rule.RHS), r2[r])
+			}
+			if want, ok := symNum(rule.LHS); !ok || -want != r1[r] {
+				return false, fmt.Sprintf("rule %d: left-hand side %s does not match yyR1", r, rule.LHS)
+			}
+			layer := map[int]bool{s: true}
+			for i := len(rule.RHS) - 1; i >= 0; i-- {
+				want, ok := symNum(rule.RHS[i])
+				if !ok {
+					return false, fmt.Sprintf("rule %d: symbol %s has no number in the tables", r, rule.RHS[i])
+				}
+				for st := range layer {
+					if chk[st] != want {
+						return false, fmt.Sprintf("reduction of rule %d (%s) in state %d: the state %d entries below the top is %d with accessing symbol %d, but the rule has %s there", r, rule, s, len(rule.RHS)-1-i, st, chk[st], rule.RHS[i])
+					}
+				}
+				next := map[int]bool{}
+				for st := range layer {
+					for p := range g.pred[st] {
+						next[p] = true
+					}
+				}
+				layer = next
+				checked++
+			}
+		}
+	}
+	return true, fmt.Sprintf("%d goto pushes land in a state whose accessing symbol is the non-terminal reduced; %d (reduction, position) pairs: every state at position i of a rule's window has the rule's i-th symbol as accessing symbol", gotos, checked)
 }
 
 // acceptLemma (C06: a parse that returns 0 has reduced rule 1, whose action stores the root): on the tables as
